@@ -880,10 +880,22 @@ def run_calls(text, calls, form="str"):
     """one text parsed again and again in this process: calls = [(strict, allow_empty_author)] in order.
     -> (message or None, observations [dict(s, a, ok, w, sr, msgs, cl)]).  The law is the statement, read
     across the calls: the lenient constructor returns, the strict one returns or raises ChangelogParseError,
-    and ANY strict call raises exactly when ANY lenient call with the same allow_empty_author warns."""
+    and ANY strict call raises exactly when ANY lenient call with the same allow_empty_author warns.
+    Faults of caller-supplied inputs (notes/SIZE_STRESS.md part 5, changelog_faults): for one text in four a FAULT
+    STEP stands between two of the calls (or before the first): a faulting twin of an input -- this text or
+    another one; the iterator raises at the first / a middle / the last line, the input ends early at a line end,
+    inside a line, inside a multi-byte character -- is parsed by a new object; that call is never judged
+    (the statement speaks of input texts), the calls after it are judged like all others.  The step is a function
+    of the text and the number of calls (a replay of a recorded case repeats it)."""
+    import random
+    frng = random.Random("fault-%d-%d-%d" % (len(text), sum(map(ord, text[:200])), len(calls)))
+    fault_at = frng.randrange(len(calls)) if calls and frng.random() < 0.25 else None
     obs = []
     msg = None
-    for st, a in calls:
+    for ci, (st, a) in enumerate(calls):
+        if ci == fault_at:
+            import changelog_faults as cf
+            cf.do_fault(cf.fault_plan(frng), text)
         o = construct(text, aea=a, strict=st, form=form)
         e = dict(s=bool(st), a=bool(a), ok=True, w=0, sr=False, msgs=[], cl=None)
         if st:
@@ -1394,6 +1406,9 @@ def run_hist(rec, c04=True):
         return msg
     last = None
     for k, (op, arg, how) in enumerate(zip(rec["ops"], rec["args"], rec["hows"])):
+        if c04 and how % 5 == 4:        # first the changelog is written to a file object that FAILS (never judged; the document stays)
+            import changelog_faults as cf
+            cf.do_write_fault(cl, how)
         err, t = apply_hist(cl, op, arg, how)
         if err:
             return ("call %d %s raised %s" % (k + 1, op, err[4:])) if err.startswith("EXC:") else err[4:]
@@ -1886,14 +1901,16 @@ def gen_call(rng, cl, wf, stress=False):
             names += ["UnsetVersion", rng.choice(sorted(UNSET_OPS))]
         names += ["BSet", "BSet", "BSet", "BRest", "BRest", "ChAppend", "ChInsert", "ChDelete", "AddTrailing", "AddTrailing", "Fmt",
                   "MutVer", "MutVer", "Reparse"]
-        if wf:                  # (C04 domain) a faulting input is parsed by ANOTHER object of the process: changelog_faults
-            names += ["FaultParse"]
+        if wf:                  # (C04 domain) a faulting input is parsed by ANOTHER object of the process: changelog_faults;
+            names += ["FaultParse", "FmtFail"]      # the changelog is written to a file object that fails
     else:
         names = [x for x in names if x != "SetVersionWS" and x not in UNSET_OPS]
     op = rng.choice(names)
     i = x = 0
     if op == "Reparse":
         return dict(op=op, i=0, x=0, arg=rng.choice(FORMS), how=0, fobs=False, fhow=0)
+    if op == "FmtFail":
+        return dict(op=op, i=0, x=0, arg=rng.randrange(12), how=0, fobs=rng.random() < 0.7, fhow=rng.randrange(3))
     if op == "FaultParse":
         import changelog_faults as cf
         plan = cf.fault_plan(rng)
@@ -1936,6 +1953,10 @@ def call_event(it, cl, c, text=None, aea=False):
         import changelog_faults as cf
         cf.do_fault(arg, text)
         err = None
+    elif op == "FmtFail":               # never judged; formatting does not change the object
+        import changelog_faults as cf
+        cf.do_write_fault(cl, arg)
+        err = None
     elif op in EDIT_OPS:
         err = apply_edit(cl, op, arg, c["how"])
     else:
@@ -1948,7 +1969,7 @@ def call_event(it, cl, c, text=None, aea=False):
     elif op == "BRest":
         b = cl[i - 1]
         v = [it.rest(b.urgency_comment, list(b.other_pairs.items()))]       # other_pairs as the object shows them now
-    elif op in ("Fmt", "ChDelete", "MutVer", "Reparse", "FaultParse"):
+    elif op in ("Fmt", "ChDelete", "MutVer", "Reparse", "FaultParse", "FmtFail"):
         v = [0]
     elif op == "SetVersionWS":
         shown = ver_str(cl[0])
